@@ -375,8 +375,14 @@ def tr_compiler(cls: ast.ClassDef, mod: ast.Module, default_ext: str, halfturn_o
     return f"mkCompiler {cstr(cls.name)} {clist(out)}"
 
 
+# the wiring of the four compilers as of guppylang 0.21.6, in the IR of Model.v.  Used ONLY when a compiler
+# body can no longer be translated: the check then still has an executable statement of the expected
+# behaviour to search for a concrete failing program (the translator failure is reported as well).
+FALLBACK_COMPILERS = {'InoutMeasureCompiler': 'mkCompiler "InoutMeasureCompiler" [WUnpack (PBracket [(false, "q")]) "args"; WAddOp (PBracket [(false, "q"); (false, "bit")]) (OQuantum [ROne HQubit] [ROne HQubit; ROne HBool]) [WVar "q"]; WAddOp (PWhole "bit") OMakeOpaque [WVar "bit"]; WReturn (WList [WVar "bit"]) (WList [WVar "q"])]', 'InoutMeasureResetCompiler': 'mkCompiler "InoutMeasureResetCompiler" [WUnpack (PBracket [(false, "q")]) "args"; WAddOp (PBracket [(false, "q"); (false, "bit")]) (OQuantum [ROne HQubit] [ROne HQubit; ROne HOpaqueBool]) [WVar "q"]; WReturn (WList [WVar "bit"]) (WList [WVar "q"])]', 'RotationCompiler': 'mkCompiler "RotationCompiler" [WUnpack (PBracket [(true, "qs"); (false, "angle")]) "args"; WAddOp (PBracket [(false, "halfturns")]) OUnpackTuple1 [WVar "angle"]; WAddOp (PBracket [(false, "rotation")]) (OFromHalfturns "from_halfturns_unchecked") [WVar "halfturns"]; WAddOp (PWhole "qs") (OQuantum [RRepeat HQubit "qs"; ROne HRotation] [RRepeat HQubit "qs"]) [WStar "qs"; WVar "rotation"]; WReturn (WList []) (WAll "qs")]', 'OpCompiler': 'mkCompiler "OpCompiler" [WAddOp (PWhole "node") OSelfOp [WStar "args"]; WReturn (WTake "node") (WDrop "node")]'}
+
+
 # ------------------------------------------------------------------------------- modules
-def translate(ctx) -> tuple[str, dict]:
+def translate(ctx, errors: list | None = None) -> tuple[str, dict]:
     util = ast.parse(ctx.int_src("std/_internal/util.py").read_text())
     qop = next((n for n in util.body if isinstance(n, ast.FunctionDef) and n.name == "quantum_op"), None)
     if qop is None or [a.arg for a in qop.args.args] != ["op_name", "ext"] or len(qop.args.defaults) != 1 \
@@ -403,7 +409,13 @@ def translate(ctx) -> tuple[str, dict]:
             cls = next((n for n in mod.body if isinstance(n, ast.ClassDef) and n.name == nm), None)
             if cls is None:
                 raise TranslatorError(f"compiler class {nm} not found")
-            compilers.append(tr_compiler(cls, mod, default_ext, halfturn_ops))
+            try:
+                compilers.append(tr_compiler(cls, mod, default_ext, halfturn_ops))
+            except TranslatorError as e:
+                if errors is None:
+                    raise
+                errors.append(str(e))
+                compilers.append(FALLBACK_COMPILERS[nm])
             comp_defaults[nm] = compiler_defaults(cls)
 
     fns_coq, fns_py = [], []
